@@ -53,6 +53,7 @@ type Contract struct {
 	Devirt   map[string]string
 	ModText  []string
 	LoopInvs map[int][]Clause
+	LoopMods map[int][]ast.Expr // loop N modifies ...: what one iteration may change on the heap (default: syntactic effects)
 	OnRet    []OnReturn
 	OnEntry  []GhostAssign
 	Inst     map[string]string
@@ -103,6 +104,7 @@ type Monitor struct {
 	Self     string
 	Protects []string
 	Inv      []Clause
+	Rely     []Clause // two-state: what any other thread's critical section guarantees (old = state at the previous release)
 	PkgPath  string
 }
 
@@ -145,7 +147,7 @@ var declKeywords = map[string]bool{"func": true, "extern": true, "field": true, 
 	"ghost": true, "axiom": true, "monitor": true, "lemma": true, "devirtall": true}
 var clauseKeywords = map[string]bool{"prop": true, "params": true, "results": true, "recv": true, "requires": true, "ensures": true,
 	"modifies": true, "loop": true, "on": true, "instantiate": true, "strings": true, "inline": true, "mode": true, "decreases": true,
-	"safety": true, "invariant": true, "protects": true, "self": true, "vars": true, "assumes": true, "replay": true, "allocates": true, "devirt": true, "spawn": true}
+	"safety": true, "invariant": true, "protects": true, "self": true, "vars": true, "assumes": true, "replay": true, "allocates": true, "devirt": true, "spawn": true, "rely": true}
 
 // desugarSpec rewrites ==> and <==> (lowest precedence, right associative) into calls.
 func desugarSpec(s string) string {
@@ -407,7 +409,7 @@ func parseContractFile(path, pkgPath, pkgName string) (*ContractFile, error) {
 		}
 		switch kw {
 		case "func", "extern", "field", "iface":
-			cur = &Contract{Kind: kw, Target: rest, PkgName: pkgName, PkgPath: pkgPath, LoopInvs: map[int][]Clause{}, Inst: map[string]string{},
+			cur = &Contract{Kind: kw, Target: rest, PkgName: pkgName, PkgPath: pkgPath, LoopInvs: map[int][]Clause{}, LoopMods: map[int][]ast.Expr{}, Inst: map[string]string{},
 				File: path, Line: rl.line, Trusted: kw != "func", Safety: map[string]bool{}}
 			cur.Key = normalizeTarget(rest)
 			cf.Contracts = append(cf.Contracts, cur)
@@ -485,6 +487,15 @@ func parseContractFile(path, pkgPath, pkgName string) (*ContractFile, error) {
 			for _, f := range strings.Split(rest, ",") {
 				curMon.Protects = append(curMon.Protects, strings.TrimSpace(f))
 			}
+		case "rely":
+			if curMon == nil {
+				return nil, fmt.Errorf("%s:%d: rely outside monitor", path, rl.line)
+			}
+			c, err := mkClause(rest, rl.line)
+			if err != nil {
+				return nil, err
+			}
+			curMon.Rely = append(curMon.Rely, c)
 		case "invariant":
 			if curMon == nil {
 				return nil, fmt.Errorf("%s:%d: invariant outside monitor", path, rl.line)
@@ -566,6 +577,24 @@ func parseContractFile(path, pkgPath, pkgName string) (*ContractFile, error) {
 					return nil, fmt.Errorf("%s:%d: loop N invariant ...", path, rl.line)
 				}
 				r2 := strings.TrimSpace(rest[len(f[0]):])
+				if strings.HasPrefix(r2, "modifies") {
+					cur.LoopMods[n] = append(cur.LoopMods[n], []ast.Expr{}...)
+					if cur.LoopMods[n] == nil {
+						cur.LoopMods[n] = []ast.Expr{}
+					}
+					for _, m := range splitTop(strings.TrimSpace(r2[len("modifies"):]), ',') {
+						m = strings.TrimSpace(m)
+						if m == "" || m == "nothing" {
+							continue
+						}
+						e, err := parseSpec(m)
+						if err != nil {
+							return nil, fmt.Errorf("%s:%d: %v", path, rl.line, err)
+						}
+						cur.LoopMods[n] = append(cur.LoopMods[n], e)
+					}
+					continue
+				}
 				if !strings.HasPrefix(r2, "invariant") {
 					return nil, fmt.Errorf("%s:%d: loop N invariant ...", path, rl.line)
 				}
